@@ -104,3 +104,51 @@ func VerifH_C02_BlockReaderDataWithEOF() {
 		return
 	}
 }
+
+// VerifH_C02_SkipNextTruncation: the same "no silent truncation" oracle for the metadata-only
+// scan: a valid CARv1 header followed by N arbitrary bytes cut anywhere, walked with SkipNext over
+// a plain and over a seekable source: a clean io.EOF is reported only when the failing call
+// consumed nothing (the cut is on a section boundary), or on a zero length byte under
+// ZeroLengthSectionAsEOF.
+func VerifH_C02_SkipNextTruncation() {
+	N := 9
+	if vTier() == 1 {
+		N = 12
+	}
+	root := vIdentityCid([]byte("r"))
+	hdr := vHeaderV1(root)
+	in := vBytes("in", N)
+	n := vInt("n")
+	vAssume(n >= 0 && n <= N)
+	zl := vBool("zeroLen")
+	data := vCat(hdr, in[:n])
+	var src io.Reader
+	var st *vStream
+	if vChoose("seekable", 2) == 1 {
+		s := &vSeekStream{vStream{data: data}}
+		src, st = s, &s.vStream
+	} else {
+		s := &vStream{data: data}
+		src, st = s, s
+	}
+	br, err := NewBlockReader(src, ZeroLengthSectionAsEOF(zl), MaxAllowedSectionSize(uint64(N-1)))
+	vAssert("header-accepted", err == nil)
+	for i := 0; i < 4; i++ {
+		before := st.pos
+		md, err := br.SkipNext()
+		if err == nil {
+			vAssert("progress", st.pos > before)
+			vAssert("section-inside-input", md.SourceOffset+md.Size <= uint64(len(data)))
+			vCover("skipped", true)
+			continue
+		}
+		if err == io.EOF {
+			consumed := st.pos - before
+			vAssert("clean-eof-only-at-boundary", consumed == 0 || (zl && consumed == 1 && data[before] == 0))
+			vCover("clean-eof", consumed == 0 && i > 0)
+			return
+		}
+		vCover("error-reported", true)
+		return
+	}
+}
